@@ -8,7 +8,7 @@
      spec_from        the whole property = judge spec_ok false (what check_case evaluates on gorm's answers)
      hist_known h     h puts the book into one of the five known-finding classes (input only)  *)
 From Verif Require Import Base C17_Model C17_Check C17_Known C17_Proofs C17_Proofs2 C17_Proofs3 C17_Proofs4
-  C17_Plugin5 C17_Exh1 C17_Exh3 C17_CheckK C17_Wide.
+  C17_Plugin5 C17_Exh1 C17_Exh3 C17_CheckK C17_Wide C17_Back3 C17_Back4.
 From Coq Require Import Permutation.
 Open Scope string_scope.
 Open Scope list_scope.
@@ -158,6 +158,54 @@ Example plugin_example :
   /\ last (run (bs ++ us)) OCrash
      = OOk [("gorm:preload", 5%N); ("p2", 4%N); ("gorm:after_query", 2%N); ("p1", 3%N); ("p3", 7%N); ("p4", 8%N)].
 Proof. vm_compute. auto. Qed.
+
+(* ---- partial, unbounded, wider: the WHOLE property on the backward domain ----------------------
+   ANY history (no split into default registration + user calls is assumed: the checker's domain flag
+   already demands that the built-in registrations come first and are plain) in which no request is "*"
+   and no matched Register takes a name that the same or an earlier call has named as a Before/After
+   target (backward_hist, decidable, input only).  A request then names a callback registered EARLIER -
+   built-in or user, live, replaced or removed by now, the "previously registered names" of the
+   property's quantifier - or a name under which nothing is ever registered; a removed name may be
+   registered again as long as nobody has named it.  On the model of callbacks.go every in-domain call
+   then returns an error or leaves a pipeline that fires each live callback once, runs the handler
+   registered last, honours every Before/After, keeps the built-in order and, for Replace, the position;
+   the recursion always ends.  (Proof: at the moment sortCallback visits a callback every request is
+   inert - its target is already sorted or is no callback - so the closure neither recurses nor writes;
+   invariant binv over Register / Replace / Remove, C17_Back*.v.)  What is left outside are requests
+   naming "*" or a name registered LATER (forward references), where the refuted clauses' witnesses live. *)
+Theorem c17_backward_domain_correct : forall h,
+  backward_hist h = true -> spec_from r0 0%N None O h (run h) = true.
+Proof. exact backward_correct. Qed.
+Print Assumptions c17_backward_domain_correct.
+
+Theorem c17_backward_domain_clauses : forall h,
+  backward_hist h = true ->
+  runs cl_true false h = true /\ runs cl_once true h = true /\ runs cl_handler true h = true
+  /\ runs cl_sides true h = true /\ runs cl_builtin true h = true /\ runs cl_replace true h = true.
+Proof.
+  intros h H. pose proof (backward_correct h H) as P.
+  rewrite spec_decomposes in P. unfold runs.
+  repeat (apply andb_true_iff in P; destruct P as [? P]). auto 10.
+Qed.
+Print Assumptions c17_backward_domain_clauses.
+
+(* the plugin domain is a special case of the backward domain *)
+Theorem c17_plugin_is_backward : forall bs us,
+  plugin_hist bs us = true -> backward_hist (bs ++ us) = true.
+Proof. exact plugin_is_backward. Qed.
+Print Assumptions c17_plugin_is_backward.
+
+(* the hypothesis is satisfiable beyond the plugin domain: user callbacks naming user callbacks, one of them
+   replaced, another removed while still named, a conflicting request answered with the error, the offender
+   removed again *)
+Example backward_example :
+  backward_hist back_example = true /\ in_domain back_example = true
+  /\ plugin_hist (firstn 3 back_example) (skipn 3 back_example) = false
+  /\ nth 9 (run back_example) OCrash = OErr "conflicting callback p5 with before p4" []
+  /\ last (run back_example) OCrash
+     = OOk [("gorm:query", 0%N); ("p1", 6%N); ("gorm:preload", 1%N); ("gorm:after_query", 2%N);
+            ("p6", 11%N); ("p3", 5%N); ("p4", 7%N)].
+Proof. vm_compute. auto 10. Qed.
 
 (* ---- bounded-exhaustive: every in-domain history of at most 3 calls (the bound of the property
    text) over {built-in names, user names (also before they are registered), an unknown name, "*"}
